@@ -2,6 +2,7 @@
    Only statements, `exact`, `Check` pins and Print Assumptions live here. *)
 From PegV Require Import Utf8 Utf8Facts State Terminals TerminalsSpec TerminalsOk Syntax Fields
   FieldsFacts Literals LiteralsFacts Model Spec Sim Conform MemoEq MemoSpec Extracted WellFormed Termination TermModel MemoTerm GrammarEbnf.
+From PegV Require CleanFrame Local LocalConform.
 
 (* side conditions on the decision points found in the current source *)
 Theorem C01_facts :
@@ -265,3 +266,40 @@ Proof.
            eq_refl eq_refl eq_refl Hp NoLR nul rk W).
 Qed.
 Print Assumptions C01_memoized_well_formed.
+
+(* ---- the clean part of ANY grammar ---------------------------------------------------------------
+   Local.v: for a set of rule names closed under reference that contains no @memoize / @leftrec rule, the
+   model of the generated parser of g and that of `unmark g` (every marker removed) do exactly the same on
+   every expression over those names - same result, state and global, every bound, stateful hooks: marked
+   rules elsewhere in the grammar cannot influence them (C01_clean_part_sees_no_markers).  `unmark g` is a
+   plain grammar, so the simulation applies: the parse of every such rule accepts, builds, consumes and
+   reports what the PEG specification S of the unmarked grammar says (C01_clean_part_of_any_grammar) - the
+   statement of C01_conform (and with it C02_tree, C08_points, C09_span, C10_furthest) for the unmarked
+   part of every grammar, also of grammars with @memoize and @leftrec rules. *)
+Theorem C01_clean_part_sees_no_markers :
+  forall (ustate : Type) (scfg : state_cfg) (tcfg : term_cfg) (fcfg : fields_cfg) (rcfg : rule_cfg)
+         (hk : hooks ustate) (g : grammar) (mb : bool) (clean : name -> bool),
+    (* mb = true: no marked rule in the set, all markers removed; mb = false: no @leftrec rule in the set
+       (memoized rules allowed), the @leftrec markers removed *)
+    (forall n, clean n = true -> Local.rule_cleanb g mb clean n) ->
+    (forall n r, clean n = true -> find_rule g n = Some r -> CleanFrame.eclean clean (r_def r) = true) ->
+    clean n_Whitespace = true ->
+    forall fuel rule_name input u, clean rule_name = true ->
+      m_parse ustate scfg tcfg fcfg rcfg hk g fuel rule_name input u =
+      m_parse ustate scfg tcfg fcfg rcfg hk (Local.unmarkb mb g) fuel rule_name input u.
+Proof. exact Local.clean_parse_unmarked. Qed.
+Print Assumptions C01_clean_part_sees_no_markers.
+
+Theorem C01_clean_part_of_any_grammar :
+  forall (ustate : Type) (hk : hooks ustate) (shk : shooks) (g : grammar) (clean : name -> bool),
+    pure_hooks ustate hk shk ->
+    (forall n, clean n = true -> CleanFrame.rule_clean g clean n) ->
+    (forall n r, clean n = true -> find_rule g n = Some r -> CleanFrame.eclean clean (r_def r) = true) ->
+    clean n_Whitespace = true ->
+    forall fuel rule_name cs u, clean rule_name = true -> all_scalar cs ->
+      conforms cs
+        (fst (m_parse ustate Extracted.scfg Extracted.tcfg Extracted.fcfg Extracted.rcfg hk g
+                      fuel rule_name (encode_str cs) u))
+        (s_parse Extracted.fcfg shk (Local.unmarkb true g) true fuel rule_name cs).
+Proof. exact LocalConform.clean_conforms. Qed.
+Print Assumptions C01_clean_part_of_any_grammar.
